@@ -6,6 +6,7 @@ import Qryn.Prom.Stepped
 import Qryn.Prom.Downsample
 import Qryn.Prom.Labels
 import Qryn.Read.SeriesOrder
+import Qryn.Prom.LabelsFetch
 /-! Line protocol for C17.
     `c17cursor <samples> <ops>` — samples `ts:v,ts:v,…` (`-` = empty slice), ops `n` (Next), `a` (At),
     `s<t>` (Seek t) comma separated; answer: outputs in call order, `T`/`F`/`ts:v`/`!` (fault), comma separated.
@@ -34,6 +35,10 @@ import Qryn.Read.SeriesOrder
     `instant` / `range` / `other`.
     `c17order <label sets>` — label sets separated by `;`, each `hexname=hexvalue,…` in name order (`_` = no label); answer: the
     same sets in the order the final `sort.Slice` of `Select` gives them (`Read.SeriesOrder.sortSeries`).
+    `c17lblfetchsql <dist 0|1> <startMs> <endMs> <fps>` — the labels request of `Select` (`Prom.LabelsFetch.fetch … .render`) for the
+    window of the hints and the planned fingerprints (comma list in the order rendered, `-` = none); answer: hex of the statement.
+    `c17lblfetcheval <startMs> <endMs> <fps> <rows>` — its meaning over `time_series` rows `day:fp` (day number of `date`; `_` = no
+    rows); answer: `<lowerDay> <upperDay> <fingerprints of the returned rows in table order, - = none>`.
     `c17scan <fromNs> <toNs>` — hex of the two bounds of the raw-sample scan as rendered.
     `c17profsql <table> <hex fromDate> <hex toDate> <selectors>` — selectors `eq|ne|re|nre:<hex name>:<hex value>[:e]`
     (`:e` = Go's regexp finds the anchored pattern in the empty string);
@@ -375,6 +380,17 @@ def handle : List String → Option String
       if l.isEmpty then "_" else ",".intercalate (l.map (fun kv => Qryn.hexOut kv.1 ++ "=" ++ Qryn.hexOut kv.2))
     let ls ← allSome ((sets.splitOn ";").map parseSet)
     some (";".intercalate ((Qryn.Read.SeriesOrder.sortSeries ls).map showSet))
+  | ["c17lblfetchsql", dist, a, b, fps] => do
+    let fps ← allSome ((parseList fps).map (·.toNat?))
+    some (Qryn.hexOut (Qryn.Prom.LabelsFetch.fetch (dist = "1") (← a.toInt?) (← b.toInt?) fps).render)
+  | ["c17lblfetcheval", a, b, fps, rows] => do
+    let fps ← allSome ((parseList fps).map (·.toNat?))
+    let rows ← allSome ((if rows = "_" then [] else rows.splitOn ",").map (fun x => match x.splitOn ":" with
+      | [d, f] => do some (⟨← d.toInt?, ← f.toNat?, []⟩ : Qryn.Prom.LabelsFetch.TsRow)
+      | _ => none))
+    let q := Qryn.Prom.LabelsFetch.fetch false (← a.toInt?) (← b.toInt?) fps
+    let out := (q.eval rows).map (fun r => toString r.fp)
+    some s!"{q.lowerDay} {q.upperDay} {if out.isEmpty then "-" else ",".intercalate out}"
   | ["c17fpeval", date, tp, ms, rows, tbl] => fpEval date tp ms rows tbl
   | ["c17hints", a, b, c, lb, rg, off, f] => do
     let q : Qryn.Prom.Stepped.Query := ⟨← a.toInt?, ← b.toInt?, ← c.toInt?⟩
